@@ -40,9 +40,9 @@ __CPROVER_ensures(DLT(g_pops) == DLT(g_sys.n_ok) + DLT(g_sys.n_err))            
 __CPROVER_ensures(DLT(g_sys.calls) == DLT(g_sys.n_ok) + DLT(g_sys.n_intr) + DLT(g_sys.n_again) + DLT(g_sys.n_err)) \
 /* the loop stops only when nobody waits any more, or on EAGAIN, or on a hard error -- and those \
  * two are then the LAST call (EINTR is retried, n >= 0 goes on to the next aio) */                \
-__CPROVER_ensures(DLT(g_sys.n_again) + DLT(g_sys.n_err) <= 1)                                       \
+__CPROVER_ensures(DLT(g_sys.n_again) <= 1 && DLT(g_sys.n_err) <= 1 && DLT(g_sys.n_again) + DLT(g_sys.n_err) <= 1 && DLT(g_sys.n_ok) <= OLD((q).s.n)) \
 __CPROVER_ensures(ACTIVE(c) ==> ((q).s.n == 0 || DLT(g_sys.n_again) + DLT(g_sys.n_err) == 1))         \
-__CPROVER_ensures(DLT(g_sys.n_again) == 1 ==> (g_sys.ret == -1 && (g_sys.err == EAGAIN || g_sys.err == EWOULDBLOCK))) \
+__CPROVER_ensures(DLT(g_sys.n_again) == 1 ==> (g_sys.ret == -1 && (g_sys.err == EAGAIN || g_sys.err == EWOULDBLOCK) && (q).s.n > 0)) \
 /* hard error: the head aio at that call, and only it, gets the mapped error, count 0 */           \
 __CPROVER_ensures(DLT(g_sys.n_err) == 1 ==> (g_sys.ret == -1 && g_fin_last == g_sys.head && g_fin_last == g_pop_last && g_fin_last_rv == VP_PLAT(g_sys.err) && g_fin_last_count == 0)) \
 /* otherwise the last completion belongs to the last call that returned n >= 0 */                  \
@@ -51,6 +51,7 @@ __CPROVER_ensures((DLT(g_sys.n_err) == 0 && DLT(g_pops) > 0) ==> VP_FIN_IS_OK_CA
 __CPROVER_ensures((OLD((q).s.n) > 0 && OLD((q).s.orig)) ==> ((q).s.orig == (DLT(g_pops) == 0)))           \
 __CPROVER_ensures((OLD((q).s.n) > 0 && OLD((q).s.orig) && (q).s.orig) ==> (q).first->a_count == OLD((q).first->a_count)) \
 __CPROVER_ensures((OLD((q).s.n) > 0 && OLD((q).s.orig) && !(q).s.orig && DLT(g_pops) == 1) ==> g_pop_last == (q).first) \
+__CPROVER_ensures((OLD((q).s.n) > 0 && OLD((q).s.orig) && DLT(g_pops) == 1 && DLT(g_sys.n_err) == 0) ==> (g_sys.ok_head == (q).first && g_sys.ok_count0 == OLD((q).first->a_count))) \
 ;
 
 
@@ -105,6 +106,8 @@ __CPROVER_ensures(!(VP_O_RHEAD(aio) || VP_O_WHEAD(aio) || VP_O_BEHIND(aio)) ==> 
 static void fn(void *arg, nni_aio *aio)                                                             \
 __CPROVER_requires(__CPROVER_is_fresh(arg, sizeof(T)) && VP_ENV_PRE((T *) arg) && g_q_objects && !g_cx_member && VP_NO_LOCK_HELD) \
 __CPROVER_requires(__CPROVER_is_fresh(aio, sizeof(nni_aio)) && VP_AIO_WF(aio) && VP_Q_OBJ_PRE(q) && ((q).s.n > 0 || !(q).s.orig)) \
+/* an aio waits in at most one queue: whoever heads the other queue is somebody else */             \
+__CPROVER_requires((oq).s.n == 0 || (VP_QHEAD(oq) != aio && VP_QHEAD(oq) != (q).first && VP_QHEAD(oq) != (q).later)) \
 __CPROVER_assigns(g_sys, (q).s, (q).first, __CPROVER_object_whole(aio), VP_LATER_T((q).later), VP_SYNC_GHOSTS) \
 /* the caller's vector is not touched */ \
 __CPROVER_ensures(aio->a_nio == OLD(aio->a_nio) && aio->a_iov[g_j & 7u].iov_buf == OLD(aio->a_iov[g_j & 7u].iov_buf) && aio->a_iov[g_j & 7u].iov_len == OLD(aio->a_iov[g_j & 7u].iov_len)) \
